@@ -280,6 +280,9 @@ def replay_fdata_body(p):
     _quiet()
     ob = p.get('obligation', '')
     a_ = p['args']
+    if 'number_edges' in ob:
+        FN_EDGES = [1, 127, 128, 255, 256, 16383, 16384, 65535, 65536, 1073741823]
+        return replay_frame_number({'args': [FN_EDGES[a_[0]] + a_[1]]})
     if 'bigendian' in ob:
         kind, dtB, wB = a_[:3]
         frame_number, ordA, ordB = 1, False, True
@@ -331,7 +334,7 @@ def replay_descriptors(p):
             frames, chans = decode_frames(data)
             code, dm, el = [v for k, v in chans.items() if k[2] == 'B'][0]
             want = DT_CODE[dt]
-            if code != want or dm != [shape] or el is None or el[0] < shape:
+            if code != want or dm != [shape] or el is None or el[0] < shape or (lim_given and el != [lim]):
                 bad = f'channel B: code {code} (want {want}), DIMENSION {dm} (want [{shape}]), ELEMENT-LIMIT {el}'
             else:
                 bad = check_rows(data, a, b.astype(DT_NAMES[dt]) if cast else b, 0, 5)
@@ -480,6 +483,7 @@ def replay_taint(p):
     kind, n, chunk, cast, big = p['args'][:5]
     o = '>' if big else '<'
     a, b, x = make_cols(n + 2, 2, 7, o, o, 3)
+    b[1, 0], b[n, 2] = np.nan, np.inf          # special values inside the written window
     a.setflags(write=True)
     snap = [arr.tobytes() for arr in (a, b, x)]
     from dliswriter import DLISFile
@@ -490,11 +494,13 @@ def replay_taint(p):
     src_snap = src.tobytes() if isinstance(src, np.ndarray) else None
     h5_hash = hashlib.sha256(open(cleanup, 'rb').read()).hexdigest() if cleanup else None
     ca = lf.add_channel('A', dataset_name=mapping['A'])
-    cb = lf.add_channel('B', dataset_name=mapping['B'], cast_dtype=np.float32 if cast else None)
+    cb = lf.add_channel('B', dataset_name=mapping['B'], cast_dtype=[None, np.float32, np.int32, np.uint8][int(cast)])
     lf.add_frame('FR', channels=(ca, cb))
     path = fresh_tmp()
     bad = ''
     try:
+        import warnings
+        warnings.simplefilter('ignore')
         df.write(path, data=src, input_chunk_size=chunk, from_idx=1, to_idx=n + 1, output_chunk_size=65536)
         if [arr.tobytes() for arr in (a, b, x)] != snap:
             bad = 'a source array changed during the write'
@@ -758,3 +764,28 @@ def replay_two_files_data(p):
         except OSError:
             pass
     return _res(bad, {'rows': [n1, n2]})
+
+
+
+def replay_frame_number(p):
+    """A FrameData record with the given frame number, built with the real classes and decoded by the strict reader."""
+    _quiet()
+    from dliswriter.logical_record.eflr_types.frame import FrameItem, FrameSet
+    from dliswriter.logical_record.eflr_types.channel import ChannelItem, ChannelSet
+    from dliswriter.logical_record.iflr_types.frame_data import FrameData
+    n = p['args'][0]
+    ch = ChannelItem('C', ChannelSet(), origin_reference=1)
+    fr = FrameItem('FR', FrameSet(), channels=(ch,), origin_reference=1)
+    row = np.zeros(1, dtype=[('C', '<f8')])
+    row['C'] = 2.5
+    body = bytes(FrameData(fr, n, row[0], origin_reference=1)._make_body_bytes())
+    bad = ''
+    try:
+        ob, pos = strict.dec_obname(body, 0)
+        num, q = strict.dec_uvari(body, pos)
+        want_len = 1 if n < 128 else 2 if n < 16384 else 4
+        if ob != (1, 0, 'FR') or num != n or q - pos != want_len or body[q:] != struct.pack('>d', 2.5):
+            bad = f'frame number {n}: record decodes to frame {ob}, number {num} ({q - pos} bytes), {len(body) - q} slot bytes'
+    except strict.StrictError as e:
+        bad = f'frame number {n}: {e}'
+    return _res(bad, {'frame_number': n, 'body': body.hex()})
